@@ -290,6 +290,13 @@ def gen(tier, rng):
     n_rand = 9000 if quick else 60000
     for _ in range(n_rand):
         yield [rand_cfg(rng), rng.randrange(64), rng.choice([1, 1, 2, 3, 4]), rng.getrandbits(30)]
+    # long strips, clustered / scattered: distances beyond 5, where different squared distances have
+    # nearly equal roots (sqrt(100) and sqrt(101)): the order must be that of the exact distance
+    for _ in range(400 if quick else 4000):
+        rows, cols = rng.choice([(1, 12), (2, 11), (2, 13), (3, 12), (11, 2), (12, 3), (2, 14)])
+        cfg = rand_cfg(rng, rng.choice([1, 1, 2]), rows, cols,
+                       [rng.randint(0, 1), rng.randint(0, 1), rng.choice([0, 1, 1, 1]), rng.choice([0, 1, 1, 1])])
+        yield [cfg, rng.randrange(64), rng.choice([1, 2]), rng.getrandbits(30)]
     # mazes on the larger grids, clustered / scattered, few fixed agents
     for _ in range(1500 if quick else 12000):
         cfg = rand_cfg(rng, rng.choice([1, 2, 2]), rng.randint(4, 8), rng.randint(4, 8),
